@@ -855,6 +855,10 @@ impl LocalDestination {
             .parent()
             .ok_or_else(|| LocalDestinationErrorKind::FileDoesNotHaveParent(filename.clone()))?;
         fs::create_dir_all(dir).map_err(LocalDestinationErrorKind::DirectoryCreationFailed)?;
+        // an entry left at this place (e.g. by an earlier restore) would make `hard_link` fail: replace it
+        if fs::symlink_metadata(&filename).is_ok_and(|meta| !meta.is_dir()) {
+            fs::remove_file(&filename).map_err(LocalDestinationErrorKind::FileRemovalFailed)?;
+        }
         fs::hard_link(&source_path, &filename).map_err(|err| {
             LocalDestinationErrorKind::HardLinkingFailed {
                 source_path,
